@@ -288,3 +288,6 @@ def g_add_node(eng, st, node, a, kw, k, ctx):
     st.assume(uf("gedges")(new) == uf("gedges")(cur.t))
     eng.store_field(st, g.t, "NxGraph", "val", V(GV, new), node)
     return k(st, VNONE)
+
+
+external("Chem.Descriptors.HeavyAtomMolWt")(heavy)
